@@ -830,6 +830,10 @@ fn sessions_scenario(rng: &mut Rng) -> Vec<Session> {
     sc!("straight", true, [mov(Loc::Addr(0x3002), 0xF025, rng), simple("continue", rng), simple("registers", rng), simple("continue", rng), simple("step", rng), simple("exit", rng)]);
     sc!("halthigh", false, [simple("continue", rng), simple("registers", rng), simple("continue", rng), simple("step", rng), stepinto(Some(2), rng), simple("registers", rng)]);
 
+    // a breakpoint on the second word: pause there, go elsewhere by reset / goto, come back - it must pause again
+    sc!("breaksecond", true, [simple("continue", rng), simple("registers", rng), simple("reset", rng), simple("continue", rng), simple("registers", rng),
+                              with_loc("goto", Loc::Addr(0x3000), rng), simple("continue", rng), simple("registers", rng), stepinto(Some(1), rng),
+                              with_loc("goto", Loc::Addr(0x3000), rng), simple("continue", rng), simple("registers", rng), simple("exit", rng)]);
     // breakpoints the SOURCE put beyond the end of user space: listed, but not removable / addable / reachable by address, label or offset
     sc!("straddle", true, [simple("breaklist", rng), with_loc("breakremove", Loc::Addr(0xFE00), rng), with_loc("breakremove", Loc::Addr(0xFE01), rng), simple("breaklist", rng),
                            with_loc("breakremove", lab("hi", 0), rng), with_loc("breakremove", lab("last", 1), rng), with_loc("breakadd", Loc::Addr(0xFE02), rng),
@@ -851,6 +855,7 @@ fn sessions_scenario(rng: &mut Rng) -> Vec<Session> {
                                         add_i(3, 3, 1).lab("far600"), blkw(499), add_i(4, 4, 1).lab("far1100"), plain("rets")]));
     // programs used by scenarios only (they do not terminate on their own, or only make sense with their script)
     cat.push(p("selfcall", true, b"", vec![add_i(0, 0, 1), pc_lab("call", 0, "deeper").lab("deeper"), halt()]));
+    cat.push(p("breaksecond", false, b"", vec![add_i(1, 1, 1), plain("break"), add_i(1, 1, 1), add_i(1, 1, 1), halt()]));
     cat.push(p("selfbr", false, b"", vec![and_i(0, 0, 0), br_lab(2, "spin").lab("spin"), halt()]));
     cat.push(p("brfirst", false, b"", vec![br_lab(2, "z"), add_i(5, 5, 1), add_i(5, 5, 2).lab("z"), halt()]));
     let mut out = Vec::new();
